@@ -33,25 +33,32 @@ ACCEPTED_REGIMES = (4, 6, 0, 7, 1)
 def plan(tier):
     if tier == "quick":
         return [{"mode": "jit", "timeout": 900}] * 6
-    return [{"mode": "jit", "timeout": 3000}] * 15 + [{"mode": "bounds", "timeout": 3000}]
+    return [{"mode": "jit", "timeout": 3000}] * 14 + [{"mode": "bounds", "timeout": 3000}, {"mode": "suite", "timeout": 3300}]
 
 
 class PostBroken(Exception):
     pass
 
 
-def install_contract(pydrex, ctx, state):
-    """icontract postcondition on Mineral.update_orientations. Conditions record and return True."""
+def install_contract(pydrex, ctx, state, window=None):
+    """icontract postcondition on Mineral.update_orientations. Conditions record and return True.
+    ``window``: digest only the first and the last ``window`` stored snapshots (long suite simulations)."""
     import icontract
 
     M = pydrex.minerals.Mineral
     if getattr(M.update_orientations, "_pvmon_contract", False):
         return
 
+    def _sha(lst):
+        if window is None or len(lst) <= window + 1:
+            return [drive.sha(a) for a in lst]
+        k = len(lst)
+        return [drive.sha(a) if (i == 0 or i >= k - window) else None for i, a in enumerate(lst)]
+
     def snap(self):
         return (
-            [id(a) for a in self.orientations], [drive.sha(a) for a in self.orientations],
-            [id(f) for f in self.fractions], [drive.sha(f) for f in self.fractions],
+            [id(a) for a in self.orientations], _sha(self.orientations),
+            [id(f) for f in self.fractions], _sha(self.fractions),
             [tuple(np.shape(a)) for a in self.orientations], [tuple(np.shape(f)) for f in self.fractions],
         )
 
@@ -62,9 +69,9 @@ def install_contract(pydrex, ctx, state):
         ctx.check("appended_exactly_one", ok1, case, n_before=len(ida), n_after=len(self.orientations),
                   nf_after=len(self.fractions))
         k = min(len(ida), len(self.orientations))
-        same = all(id(self.orientations[i]) == ida[i] and drive.sha(self.orientations[i]) == sha_a[i] for i in range(k))
+        same = all(id(self.orientations[i]) == ida[i] and (sha_a[i] is None or drive.sha(self.orientations[i]) == sha_a[i]) for i in range(k))
         k2 = min(len(idf), len(self.fractions))
-        same &= all(id(self.fractions[i]) == idf[i] and drive.sha(self.fractions[i]) == sha_f[i] for i in range(k2))
+        same &= all(id(self.fractions[i]) == idf[i] and (sha_f[i] is None or drive.sha(self.fractions[i]) == sha_f[i]) for i in range(k2))
         ctx.check("earlier_snapshots_untouched", same, case)
         if ok1:
             shp = tuple(np.shape(self.orientations[-1])) == shp_a[-1] and tuple(np.shape(self.fractions[-1])) == shp_f[-1]
@@ -219,6 +226,10 @@ def _state(ctx, pydrex):
 
 
 def run(ctx):
+    if ctx.mode == "suite":
+        from .. import suite
+
+        return suite.run_suite_shard(ctx, "C01")
     pydrex = bootstrap.import_pydrex()
     _state(ctx, pydrex)
     for case in gen_cases(ctx):
